@@ -50,7 +50,7 @@ Proof.
   destruct (blob_ok_signer b Hok) as [(Hv0 & _ & Hn)|(Hv1 & Hs1 & Hsg)].
   - rewrite Hv0. cbn [N.eqb andb]. unfold signer_len. rewrite Hn. reflexivity.
   - rewrite Hv1. cbn [N.eqb Pos.eqb andb]. unfold signer_len. rewrite Hsg.
-    unfold lenN. rewrite firstn_length, skipn_length, Hlen, Hs1. reflexivity.
+    rewrite Hv1 in Hlen. unfold lenN in Hlen |- *. rewrite firstn_length, skipn_length, Hlen, Hs1. reflexivity.
 Qed.
 
 Lemma slice_mid {A} (pre mid post : list A) :
@@ -97,4 +97,636 @@ Proof.
   { rewrite <- Hpre, Hs. apply slice_mid. }
   rewrite Hsl. cbn [bind]. rewrite (parse_blobs_blob_spec b Hok). cbn [bind].
   rewrite IH. reflexivity.
+Qed.
+
+(* ================================================================== *)
+(* Where the blobs sit in the layout                                   *)
+(* ================================================================== *)
+
+Lemma region_blob_at : forall l cur pns pver, chain cur l -> forall e, In e l ->
+  exists pre post, region cur pns pver l = pre ++ blob_spec (lb_blob e) ++ post /\ cur + lenN pre = lb_index e.
+Proof.
+  induction l as [|e0 l IH]; intros cur pns pver Hch e Hin; [destruct Hin|].
+  destruct Hch as (H1 & H2 & H3). cbn [region]. destruct Hin as [<-|Hin].
+  - eexists _, _. split; [reflexivity|]. unfold lenN. rewrite repeat_length. lia.
+  - destruct (IH _ (b_ns (lb_blob e0)) (b_ver (lb_blob e0)) H3 e Hin) as (pre & post & Hr & Hl).
+    rewrite Hr.
+    exists (repeat (padding_spec pns pver) (N.to_nat (lb_index e0 - cur)) ++ blob_spec (lb_blob e0) ++ pre), post.
+    split; [rewrite <- !app_assoc; reflexivity|].
+    rewrite !lenN_app, H2. unfold lenN at 1. rewrite repeat_length. lia.
+Qed.
+
+(* everything after the two transaction sequences *)
+Definition lay_rest (thr : N) (normals : list bytes) (btxs : list blob_tx) : list share :=
+  region (lenN (tx_run normals ++ pfb_run thr normals btxs)) primary_reserved_padding_ns 0
+         (lay_placed thr normals btxs) ++ tail_pad thr normals btxs.
+
+Lemma layout_split thr normals btxs : 1 <= thr -> Forall lay_btx_ok btxs ->
+  estimate thr normals btxs < 2097152 ->
+  layout thr normals btxs = tx_run normals ++ pfb_run thr normals btxs ++ lay_rest thr normals btxs.
+Proof.
+  intros Ht Hok Hest. rewrite layout_unfold. destruct (lay_body_eq thr normals btxs Ht Hok Hest) as [-> _].
+  unfold lay_rest. rewrite <- !app_assoc. reflexivity.
+Qed.
+
+Lemma placed_chain thr normals btxs : 1 <= thr -> Forall lay_btx_ok btxs ->
+  estimate thr normals btxs < 2097152 ->
+  chain (lenN (tx_run normals ++ pfb_run thr normals btxs)) (lay_placed thr normals btxs).
+Proof.
+  intros Ht Hok Hest.
+  assert (Hacc : lenN (tx_run normals ++ pfb_run thr normals btxs) <= lay_start normals btxs).
+  { rewrite lenN_app. unfold tx_run, pfb_run. rewrite !compact_spec_ix_length. unfold lay_start.
+    pose proof (compact_count_wrappers _ btxs (placed_index_small thr normals btxs Ht Hest)). lia. }
+  eapply chain_weaken; [exact Hacc|]. unfold lay_placed. apply assign_chain; [exact Ht|].
+  eapply Forall_impl; [|apply sorted_blobs_ok, Hok]. intros e [[H1 _] H2]. split; assumption.
+Qed.
+
+Section SmallArith.
+  Local Ltac Zify.zify_post_hook ::= Z.div_mod_to_equations.
+  Lemma sparse_needed_small x : sparse_shares_needed x < 2097152 -> x <= 4294967295.
+  Proof.
+    unfold sparse_shares_needed. destruct (x =? 0) eqn:E0; [lia|]. destruct (x <? 478) eqn:E1; [lia|].
+    destruct (0 <? (x - 478) mod 482); lia.
+  Qed.
+End SmallArith.
+
+(* every placed blob: its shares are in the square at the assigned index *)
+Lemma layout_blob_at thr normals btxs : 1 <= thr -> Forall lay_btx_ok btxs ->
+  estimate thr normals btxs < 2097152 ->
+  forall e, In e (lay_placed thr normals btxs) ->
+    blob_at (layout thr normals btxs) (lb_index e) (lb_blob e) /\ blob_ok (lb_blob e) /\
+    blob_small (lb_blob e) /\ lb_index e < 2097152.
+Proof.
+  intros Ht Hok Hest e He.
+  pose proof (placed_chain thr normals btxs Ht Hok Hest) as Hch.
+  destruct (region_blob_at _ _ primary_reserved_padding_ns 0 Hch e He) as (pre & post & Hr & Hl).
+  split.
+  { rewrite (layout_split thr normals btxs Ht Hok Hest). unfold lay_rest. rewrite Hr.
+    exists ((tx_run normals ++ pfb_run thr normals btxs) ++ pre), (post ++ tail_pad thr normals btxs). split.
+    - rewrite <- !app_assoc. reflexivity.
+    - rewrite lenN_app. exact Hl. }
+  assert (Hfacts : lay_blob_ok (lb_blob e) /\ lb_counted e).
+  { assert (H : Forall (fun e => lay_blob_ok (lb_blob e) /\ lb_counted e) (lay_placed thr normals btxs)).
+    { unfold lay_placed. apply (assign_Forall thr (fun b n => lay_blob_ok b /\ n = blob_share_count b)).
+      apply sorted_blobs_ok, Hok. }
+    rewrite Forall_forall in H. apply H, He. }
+  destruct Hfacts as [[Hbok _] Hcnt]. split; [exact Hbok|].
+  assert (Hidx : lb_index e + lb_n e <= estimate thr normals btxs).
+  { pose proof (assign_index_le thr Ht (sorted_blobs btxs) (lay_start normals btxs)) as H.
+    rewrite Forall_forall in H. destruct (H e He) as [_ H2].
+    pose proof (final_cursor_estimate thr normals btxs Ht). lia. }
+  split; [|lia].
+  unfold blob_small. apply sparse_needed_small. unfold lb_counted, blob_share_count in Hcnt. lia.
+Qed.
+
+(* ================================================================== *)
+(* The recorded indexes are those of the transaction's own blobs       *)
+(* ================================================================== *)
+
+Definition lkey (e : lblob) : N * N * blob := (lb_pfb e, lb_j e, lb_blob e).
+
+Lemma assign_keys thr : forall l c, map lkey (assign thr c l) = map lkey l.
+Proof. induction l as [|e l IH]; intros c; [reflexivity|]. cbn [assign map]. rewrite IH. reflexivity. Qed.
+
+Lemma blobs_of_tx_keys p : forall bs j pi jj b,
+  In (pi, jj, b) (map lkey (blobs_of_tx p j bs)) <->
+  pi = p /\ exists k, jj = j + N.of_nat k /\ nth_error bs k = Some b.
+Proof.
+  induction bs as [|b0 bs IH]; intros j pi jj b; cbn [blobs_of_tx map In].
+  - split; [intros []|]. intros (_ & k & _ & H). destruct k; discriminate.
+  - rewrite IH. unfold lkey at 1. cbn [lb_pfb lb_j lb_blob]. split.
+    + intros [Heq|(Hp & k & Hj & Hn)].
+      * inversion Heq; subst. split; [reflexivity|]. exists 0%nat. split; [lia|reflexivity].
+      * split; [exact Hp|]. exists (S k). split; [lia|exact Hn].
+    + intros (Hp & k & Hj & Hn). destruct k as [|k].
+      * left. cbn [nth_error] in Hn. inversion Hn; subst. f_equal. f_equal. lia.
+      * right. split; [exact Hp|]. exists k. split; [lia|exact Hn].
+Qed.
+
+Lemma all_blobs_keys : forall btxs p pi jj b,
+  In (pi, jj, b) (map lkey (all_blobs p btxs)) <->
+  exists i t k, pi = p + N.of_nat i /\ jj = N.of_nat k /\ nth_error btxs i = Some t /\
+                nth_error (btx_blobs t) k = Some b.
+Proof.
+  induction btxs as [|t0 tl IH]; intros p pi jj b; cbn [all_blobs map In].
+  - split; [intros []|]. intros (i & t & k & _ & _ & H & _). destruct i; discriminate.
+  - rewrite map_app, in_app_iff, blobs_of_tx_keys, IH. split.
+    + intros [(Hp & k & Hj & Hn)|(i & t & k & Hp & Hj & Ht & Hn)].
+      * exists 0%nat, t0, k. repeat split; [lia|lia|exact Hn].
+      * exists (S i), t, k. repeat split; [lia|exact Hj|exact Ht|exact Hn].
+    + intros (i & t & k & Hp & Hj & Ht & Hn). destruct i as [|i].
+      * left. cbn [nth_error] in Ht. inversion Ht; subst t. split; [lia|]. exists k. split; [lia|exact Hn].
+      * right. exists i, t, k. repeat split; [lia|exact Hj|exact Ht|exact Hn].
+Qed.
+
+Lemma placed_keys thr normals btxs x :
+  In x (map lkey (lay_placed thr normals btxs)) <-> In x (map lkey (all_blobs 0 btxs)).
+Proof.
+  unfold lay_placed, sorted_blobs. rewrite assign_keys.
+  pose proof (Permutation_map lkey (lb_sort_perm (all_blobs 0 btxs))) as Hp. split; intros H.
+  - exact (Permutation_in _ Hp H).
+  - exact (Permutation_in _ (Permutation_sym Hp) H).
+Qed.
+
+(* the recorded index of blob k of transaction i is the index of an entry carrying that blob *)
+Lemma index_of_placed thr normals btxs i t k b :
+  nth_error btxs i = Some t -> nth_error (btx_blobs t) k = Some b ->
+  let placed := lay_placed thr normals btxs in
+  exists e, In e placed /\ lb_index e = index_of placed (N.of_nat i) (N.of_nat k) /\ lb_blob e = b.
+Proof.
+  intros Ht Hb placed. unfold index_of.
+  destruct (find (fun e => (lb_pfb e =? N.of_nat i) && (lb_j e =? N.of_nat k)) placed) as [e|] eqn:Ef.
+  - apply find_some in Ef. destruct Ef as [He Hk]. apply andb_true_iff in Hk as [Hk1 Hk2].
+    apply N.eqb_eq in Hk1, Hk2. exists e. split; [exact He|]. split; [reflexivity|].
+    assert (Hin : In (lkey e) (map lkey placed)) by (apply in_map, He).
+    apply placed_keys in Hin. unfold lkey in Hin. apply all_blobs_keys in Hin.
+    destruct Hin as (i' & t' & k' & Hp & Hj & Ht' & Hb').
+    assert (i' = i) by lia. assert (k' = k) by lia. subst i' k'. congruence.
+  - exfalso.
+    assert (Hin : In (N.of_nat i, N.of_nat k, b) (map lkey placed)).
+    { apply placed_keys, all_blobs_keys. exists i, t, k. split; [lia|]. split; [reflexivity|]. split; assumption. }
+    apply in_map_iff in Hin. destruct Hin as (e & Hk & He).
+    pose proof (find_none _ _ Ef e He) as Hf. cbv beta in Hf.
+    unfold lkey in Hk. inversion Hk as [[H1 H2 H3]]. rewrite H1, H2, !N.eqb_refl in Hf. discriminate.
+Qed.
+
+Lemma indexes_of_tx_placed thr normals btxs i t : nth_error btxs i = Some t ->
+  let placed := lay_placed thr normals btxs in
+  forall bs j, (forall k b, nth_error bs k = Some b -> nth_error (btx_blobs t) (j + k) = Some b) ->
+  Forall2 (fun ix b => exists e, In e placed /\ lb_index e = ix /\ lb_blob e = b)
+          (indexes_of_tx placed (N.of_nat i) (N.of_nat j) bs) bs.
+Proof.
+  intros Ht placed. induction bs as [|b0 bs IH]; intros j H; cbn [indexes_of_tx]; constructor.
+  - specialize (H 0%nat b0 eq_refl). rewrite Nat.add_0_r in H.
+    destruct (index_of_placed thr normals btxs i t j b0 Ht H) as (e & He & Hi & Hb).
+    exists e. repeat split; [exact He|exact Hi|exact Hb].
+  - replace (N.of_nat j + 1) with (N.of_nat (S j)) by lia. apply IH.
+    intros k b Hk. replace (S j + k)%nat with (j + S k)%nat by lia. apply H. exact Hk.
+Qed.
+
+(* ================================================================== *)
+(* The wrapped PFBs: sizes, wire round trip                            *)
+(* ================================================================== *)
+
+(* the bytes MarshalBlobTx produces from the parts of a blob transaction *)
+Definition blob_tx_bytes (t : blob_tx) : bytes :=
+  enc_bytes_field 1 (btx_tx t)
+  ++ concat (map (fun b => enc_msg_field 2 (marshal_blob b)) (btx_blobs t))
+  ++ enc_bytes_field 3 type_id_blob.
+
+Lemma marshal_blob_tx_bytes tx blobs : blobs <> [] -> Forall blob_ok blobs ->
+  marshal_blob_tx tx blobs = Ok (blob_tx_bytes (mk_btx tx blobs)).
+Proof.
+  intros Hne Hall. unfold marshal_blob_tx, blob_tx_bytes. cbn [btx_tx btx_blobs].
+  destruct blobs as [|b0 bl]; [congruence|].
+  replace (existsb (fun b => Nat.eqb (length (b_data b)) 0) (b0 :: bl)) with false; [reflexivity|].
+  symmetry. apply not_true_is_false. intros Ex. apply existsb_exists in Ex. destruct Ex as (b & Hin & Hb).
+  rewrite Forall_forall in Hall. destruct (Hall b Hin) as (_ & _ & _ & _ & _ & Hd & _).
+  apply Nat.eqb_eq in Hb. destruct (b_data b); [congruence|discriminate].
+Qed.
+
+Lemma in_stream_le w : forall txs, In w txs -> (length w <= length (stream txs))%nat.
+Proof.
+  induction txs as [|t txs IH]; intros Hin; [destruct Hin|]. rewrite stream_cons, !app_length.
+  destruct Hin as [->|Hin]; [lia|]. specialize (IH Hin). lia.
+Qed.
+
+Lemma compact_count_stream txs : compact_count txs < 2097152 -> lenN (stream txs) < 4294967296.
+Proof.
+  unfold compact_count. pose proof (cneeded_enough (length (stream txs))). unfold lenN. lia.
+Qed.
+
+Lemma length_enc_bytes_field num v : (length v <= length (enc_bytes_field num v))%nat.
+Proof. unfold enc_bytes_field. destruct v; [apply Nat.le_refl|]. rewrite !app_length. lia. Qed.
+
+Lemma wrapper_length_ge tx idx :
+  (length tx <= length (marshal_index_wrapper tx idx))%nat /\
+  (length (concat (map put_uvarint idx)) <= length (marshal_index_wrapper tx idx))%nat /\
+  (1 <= length (marshal_index_wrapper tx idx))%nat.
+Proof.
+  unfold marshal_index_wrapper. rewrite !app_length.
+  pose proof (length_enc_bytes_field 1 tx) as H1.
+  assert (H3 : (1 <= length (enc_bytes_field 3 type_id_indx))%nat) by (vm_compute; lia).
+  split; [lia|]. split; [|lia].
+  destruct idx as [|i idx]; [cbn [map concat length]; lia|].
+  rewrite length_enc_msg_field. lia.
+Qed.
+
+Lemma wrapper_iw_ok tx idx : Forall (fun i => i < 2097152) idx ->
+  lenN (marshal_index_wrapper tx idx) < 4294967296 -> iw_ok tx idx.
+Proof.
+  intros Hi Hl. destruct (wrapper_length_ge tx idx) as (H1 & H2 & _). unfold lenN in Hl.
+  assert (H64 : 4294967296 < 2 ^ 64) by reflexivity.
+  unfold iw_ok, lenN. split; [lia|]. split; [|lia].
+  eapply Forall_impl; [|exact Hi]. intros i H. cbn beta in H. lia.
+Qed.
+
+Lemma wrappers_length placed : forall btxs p, length (wrappers placed p btxs) = length btxs.
+Proof. induction btxs as [|t tl IH]; intros p; cbn [wrappers length]; [reflexivity|]. rewrite IH. reflexivity. Qed.
+
+Lemma wrappers_nonempty placed : forall btxs p, Forall (fun w => w <> []) (wrappers placed p btxs).
+Proof.
+  induction btxs as [|t tl IH]; intros p; cbn [wrappers]; constructor; [|apply IH].
+  intros E. destruct (wrapper_length_ge (btx_tx t) (indexes_of_tx placed p 0 (btx_blobs t))) as (_ & _ & H).
+  rewrite E in H. cbn [length] in H. lia.
+Qed.
+
+(* the real wrapped PFBs fill fewer than 2^32 bytes *)
+Lemma wrappers_stream_small thr normals btxs : 1 <= thr -> estimate thr normals btxs < 2097152 ->
+  lenN (stream (wrappers (lay_placed thr normals btxs) 0 btxs)) < 4294967296.
+Proof.
+  intros Ht Hest. apply compact_count_stream.
+  pose proof (compact_count_wrappers _ btxs (placed_index_small thr normals btxs Ht Hest)) as H.
+  unfold estimate in Hest. lia.
+Qed.
+
+Lemma normals_stream_small thr normals btxs : estimate thr normals btxs < 2097152 ->
+  lenN (stream normals) < 4294967296.
+Proof. intros Hest. apply compact_count_stream. unfold estimate in Hest. lia. Qed.
+
+Lemma Forall2_imp {A B} (P Q : A -> B -> Prop) : forall l1 l2,
+  (forall a b, In a l1 -> In b l2 -> P a b -> Q a b) -> Forall2 P l1 l2 -> Forall2 Q l1 l2.
+Proof.
+  intros l1 l2 H HF. induction HF as [|a b l1 l2 Hab _ IH]; constructor.
+  - apply H; [left; reflexivity|left; reflexivity|exact Hab].
+  - apply IH. intros a' b' Ha Hb. apply H; right; assumption.
+Qed.
+
+Lemma Forall2_left {A B} (P : A -> B -> Prop) (Q : A -> Prop) l1 l2 :
+  (forall a b, P a b -> Q a) -> Forall2 P l1 l2 -> Forall Q l1.
+Proof. intros H. induction 1 as [|a b l1 l2 Hab _ IH]; constructor; [exact (H a b Hab)|exact IH]. Qed.
+
+Lemma Forall2_len {A B} (P : A -> B -> Prop) l1 l2 : Forall2 P l1 l2 -> length l1 = length l2.
+Proof. induction 1; cbn [length]; congruence. Qed.
+
+(* ================================================================== *)
+(* The PFB loop of Deconstruct                                         *)
+(* ================================================================== *)
+
+Definition blob_sizes (bs : list blob) : list N := map (fun b => lenN (b_data b)) bs.
+
+Lemma decon_pfbs_cons dec s tx blobs idxs tl :
+  blobs <> [] -> dec tx = Ok (blob_sizes blobs) ->
+  Forall2 (fun i b => blob_at s i b /\ blob_ok b /\ blob_small b) idxs blobs -> iw_ok tx idxs ->
+  decon_pfbs dec s (marshal_index_wrapper tx idxs :: tl) =
+  (do rest <- decon_pfbs dec s tl; Ok (blob_tx_bytes (mk_btx tx blobs) :: rest)).
+Proof.
+  intros Hne Hdec HF Hiw. cbn [decon_pfbs]. rewrite (index_wrapper_round_trip tx idxs Hiw).
+  cbn [iw_idx iw_tx].
+  destruct idxs as [|i0 idxs]; [inversion HF; subst; congruence|].
+  rewrite Hdec. cbn [bind]. unfold blob_sizes at 1. rewrite map_length, <- (Forall2_len _ _ _ HF), Nat.eqb_refl.
+  cbn [negb]. unfold blob_sizes. rewrite (decon_blobs_ok s _ _ HF). cbn [bind].
+  rewrite marshal_blob_tx_bytes; [reflexivity|exact Hne|].
+  apply Forall_forall. intros b Hb. clear -HF Hb.
+  induction HF as [|i b' l1 l2 Hab _ IH]; [destruct Hb|]. destruct Hb as [<-|Hb]; [apply Hab|apply IH, Hb].
+Qed.
+
+Lemma decon_wrappers dec thr normals btxs : 1 <= thr -> Forall lay_btx_ok btxs ->
+  Forall (fun t => btx_blobs t <> []) btxs ->
+  Forall (fun t => dec (btx_tx t) = Ok (blob_sizes (btx_blobs t))) btxs ->
+  estimate thr normals btxs < 2097152 ->
+  let s := layout thr normals btxs in
+  let placed := lay_placed thr normals btxs in
+  forall tl p, (forall i t, nth_error tl i = Some t -> nth_error btxs (p + i) = Some t) ->
+    Forall (fun w => lenN w < 4294967296) (wrappers placed (N.of_nat p) tl) ->
+    decon_pfbs dec s (wrappers placed (N.of_nat p) tl) = Ok (map blob_tx_bytes tl).
+Proof.
+  intros Ht Hok Hne Hdec Hest s placed.
+  induction tl as [|t0 tl IH]; intros p Hsuf Hlen; [reflexivity|].
+  cbn [wrappers map] in *. apply Forall_cons_iff in Hlen as [Hl0 Hlen].
+  pose proof (Hsuf 0%nat t0 eq_refl) as Ht0. rewrite Nat.add_0_r in Ht0.
+  pose proof (nth_error_In _ _ Ht0) as Hin.
+  rewrite Forall_forall in Hne, Hdec.
+  pose proof (indexes_of_tx_placed thr normals btxs p t0 Ht0 (btx_blobs t0) 0%nat (fun k b H => H)) as HF.
+  change (N.of_nat 0) with 0 in HF. fold placed in HF.
+  assert (HF' : Forall2 (fun i b => (blob_at s i b /\ blob_ok b /\ blob_small b) /\ i < 2097152)
+                        (indexes_of_tx placed (N.of_nat p) 0 (btx_blobs t0)) (btx_blobs t0)).
+  { eapply Forall2_imp; [|exact HF]. intros ix b _ _ (e & He & <- & <-).
+    destruct (layout_blob_at thr normals btxs Ht Hok Hest e He) as (H1 & H2 & H3 & H4).
+    split; [split; [exact H1|split; [exact H2|exact H3]]|exact H4]. }
+  assert (Hsmall : Forall (fun i => i < 2097152) (indexes_of_tx placed (N.of_nat p) 0 (btx_blobs t0))).
+  { eapply Forall2_left; [|exact HF']. intros i b [_ H]. exact H. }
+  rewrite (decon_pfbs_cons dec s (btx_tx t0) (btx_blobs t0) _ _ (Hne t0 Hin) (Hdec t0 Hin)).
+  - replace (N.of_nat p + 1) with (N.of_nat (S p)) by lia. rewrite IH.
+    + cbn [bind]. destruct t0; reflexivity.
+    + intros i t Hi. replace (S p + i)%nat with (p + S i)%nat by lia. apply Hsuf. exact Hi.
+    + replace (N.of_nat (S p)) with (N.of_nat p + 1) by lia. exact Hlen.
+  - eapply Forall2_imp; [|exact HF']. intros ix b _ _ [H _]. exact H.
+  - apply wrapper_iw_ok; assumption.
+Qed.
+
+(* ================================================================== *)
+(* The two namespace lookups and the frame of Deconstruct              *)
+(* ================================================================== *)
+
+Lemma range_prefix ns run post : Forall (ns_is ns) run -> Forall (ns_above ns) post ->
+  get_share_range_for_namespace (run ++ post) ns = (0, lenN run).
+Proof.
+  intros Hrun Hpost. pose proof (range_lookup ns [] run post (Forall_nil _) Hrun Hpost) as H.
+  cbn [app] in H. rewrite H. destruct run; reflexivity.
+Qed.
+
+Lemma slice_prefix {A} (a b : list A) : slice_list 0 (lenN a) (a ++ b) = Ok a.
+Proof. exact (slice_mid [] a b). Qed.
+
+Lemma empty_square_val : empty_square = Ok [padding_spec tail_padding_ns 0].
+Proof. vm_compute. reflexivity. Qed.
+
+Lemma square_not_empty x l : sh_ns x <> tail_padding_ns -> square_is_empty (x :: l) = false.
+Proof.
+  intros H. unfold square_is_empty. rewrite empty_square_val. cbn [shares_eqb].
+  replace (bytes_eqb x (padding_spec tail_padding_ns 0)) with false; [reflexivity|].
+  symmetry. apply bytes_eqb_neq. intros E. apply H. rewrite E. reflexivity.
+Qed.
+
+(* Deconstruct on: a tx-namespace run, a PFB-namespace run, shares above both *)
+Lemma deconstruct_frame dec txr pfr rest normals wr out :
+  square_is_empty (txr ++ pfr ++ rest) = false ->
+  Forall (ns_is tx_ns) txr -> Forall (ns_is pfb_ns) pfr -> Forall (ns_above pfb_ns) rest ->
+  parse_txs txr = Ok normals -> parse_txs pfr = Ok wr ->
+  decon_pfbs dec (txr ++ pfr ++ rest) wr = Ok out -> (pfr = [] -> out = []) ->
+  deconstruct dec (txr ++ pfr ++ rest) = Ok (normals ++ out).
+Proof.
+  intros Hne Htx Hpfb Hrest Hp1 Hp2 Hd Hnil. set (s := txr ++ pfr ++ rest) in *.
+  assert (Hpost : Forall (ns_above tx_ns) (pfr ++ rest)).
+  { assert (Hlt : lex_lt tx_ns pfb_ns) by (apply bytes_cmp_lt_lex, tx_lt_pfb).
+    apply Forall_app. split.
+    - eapply Forall_impl; [|exact Hpfb]. intros x Hx. unfold ns_is in Hx. unfold ns_above. rewrite Hx. exact Hlt.
+    - eapply Forall_impl; [|exact Hrest]. intros x Hx. unfold ns_above in *. exact (lex_lt_trans _ _ _ Hlt Hx). }
+  unfold deconstruct. rewrite Hne. unfold s at 1. rewrite (range_prefix tx_ns txr _ Htx Hpost).
+  change (negb (0 =? 0)) with false. cbv iota.
+  assert (Hdrop : dropN (lenN txr) s = pfr ++ rest).
+  { unfold dropN, lenN, s. rewrite Nnat.Nat2N.id, skipn_app, Nat.sub_diag, skipn_O, skipn_all. reflexivity. }
+  rewrite Hdrop, (range_prefix pfb_ns pfr rest Hpfb Hrest).
+  assert (Hs1 : slice_list 0 (lenN txr) s = Ok txr) by apply slice_prefix.
+  destruct pfr as [|p0 pfr'] eqn:Epfr.
+  - change ((0 =? 0) && (lenN (@nil share) =? 0)) with true. cbv iota.
+    rewrite Hs1. cbn [bind]. rewrite Hp1, (Hnil eq_refl), app_nil_r. reflexivity.
+  - replace ((0 =? 0) && (lenN (p0 :: pfr') =? 0)) with false by (rewrite lenN_cons; lia).
+    change (negb (0 =? 0)) with false. cbv iota.
+    rewrite Hs1. cbn [bind]. rewrite Hp1. cbn [bind].
+    assert (Hs2 : slice_list (0 + lenN txr) (lenN (p0 :: pfr') + lenN txr) s = Ok (p0 :: pfr')).
+    { rewrite N.add_0_l, (N.add_comm (lenN (p0 :: pfr'))). apply slice_mid. }
+    rewrite Hs2. cbn [bind]. rewrite Hp2. cbn [bind]. rewrite Hd. reflexivity.
+Qed.
+
+(* ================================================================== *)
+(* The layout, piece by piece                                          *)
+(* ================================================================== *)
+
+Lemma compact_spec_ix_cons ns txs : txs <> [] -> exists x l, compact_spec_ix ns 0 txs = x :: l.
+Proof.
+  intros Hne. destruct txs as [|t txs]; [congruence|]. unfold compact_spec_ix.
+  pose proof (stream_nonempty t txs) as Hs.
+  assert (Hpos : (0 < length (stream (t :: txs)))%nat).
+  { destruct (stream (t :: txs)); [congruence|cbn [length]; lia]. }
+  pose proof (cneeded_pos _ Hpos) as Hc. destruct (cneeded (length (stream (t :: txs)))) as [|n]; [lia|].
+  cbn [seq map]. eexists _, _. reflexivity.
+Qed.
+
+Lemma lay_rest_above thr normals btxs : Forall lay_btx_ok btxs ->
+  Forall (ns_above pfb_ns) (lay_rest thr normals btxs).
+Proof.
+  intros Hok. destruct (placed_facts thr normals btxs Hok) as (Hb & _ & Hbt).
+  assert (Hlt : lex_lt pfb_ns primary_reserved_padding_ns) by (apply bytes_cmp_lt_lex, pfb_lt_reserved).
+  unfold lay_rest. apply Forall_app. split.
+  - apply (region_ns_all (fun n => lex_lt pfb_ns n)); [apply length_reserved_ns|exact Hb|exact Hlt|].
+    eapply Forall_impl; [|exact Hbt]. intros e [H _]. cbn beta. apply bytes_cmp_lt_lex in H.
+    exact (lex_lt_trans _ _ _ Hlt H).
+  - unfold tail_pad. apply Forall_repeat. unfold ns_above. rewrite (padding_spec_ns _ _ length_tail_ns).
+    apply bytes_cmp_lt_lex. vm_compute. reflexivity.
+Qed.
+
+Lemma parse_tx_run ns txs : length ns = 29%nat -> is_compact_ns ns = true ->
+  Forall (fun t => t <> []) txs -> lenN (stream txs) < 4294967296 ->
+  parse_txs (compact_spec_ix ns 0 txs) = Ok txs.
+Proof.
+  intros Hns Hc Hall Hb. destruct txs as [|t txs]; [reflexivity|].
+  apply parse_txs_compact_spec; try assumption. discriminate.
+Qed.
+
+Lemma tx_ns_not_tail : tx_ns <> tail_padding_ns. Proof. discriminate. Qed.
+Lemma pfb_ns_not_tail : pfb_ns <> tail_padding_ns. Proof. discriminate. Qed.
+
+(* ================================================================== *)
+(* C02 on the layout                                                   *)
+(* ================================================================== *)
+
+(* the empty list: the single tail padding share, and back *)
+Theorem deconstruct_layout_empty dec thr :
+  Ok (layout thr [] []) = empty_square /\ deconstruct dec (layout thr [] []) = Ok [].
+Proof.
+  split; [rewrite empty_square_val; reflexivity|].
+  unfold deconstruct. change (layout thr [] []) with [padding_spec tail_padding_ns 0].
+  assert (He : square_is_empty [padding_spec tail_padding_ns 0] = true) by (vm_compute; reflexivity).
+  rewrite He. reflexivity.
+Qed.
+
+Theorem deconstruct_layout dec thr normals btxs :
+  1 <= thr -> Forall (fun t => t <> []) normals -> Forall lay_btx_ok btxs ->
+  Forall (fun t => btx_blobs t <> []) btxs ->
+  Forall (fun t => dec (btx_tx t) = Ok (blob_sizes (btx_blobs t))) btxs ->
+  estimate thr normals btxs < 2097152 ->
+  deconstruct dec (layout thr normals btxs) = Ok (normals ++ map blob_tx_bytes btxs).
+Proof.
+  intros Ht Hnn Hok Hne Hdec Hest.
+  assert (Hcase : (normals = [] /\ btxs = []) \/ (normals <> [] \/ btxs <> [])).
+  { destruct normals; [destruct btxs; [left; split; reflexivity|right; right; discriminate]|right; left; discriminate]. }
+  destruct Hcase as [[-> ->]|Hcase]; [apply deconstruct_layout_empty|].
+  pose proof (layout_split thr normals btxs Ht Hok Hest) as Hsplit.
+  set (placed := lay_placed thr normals btxs) in *.
+  set (wr := wrappers placed 0 btxs).
+  assert (Hwlen : lenN (stream wr) < 4294967296) by (apply wrappers_stream_small; assumption).
+  assert (Hwr_nil : pfb_run thr normals btxs = [] -> btxs = []).
+  { intros E. destruct btxs as [|t0 tl]; [reflexivity|exfalso].
+    destruct (compact_spec_ix_cons pfb_ns wr) as (x & l & Hx); [unfold wr; cbn [wrappers]; discriminate|].
+    unfold pfb_run in E. fold placed in E. fold wr in E. congruence. }
+  rewrite Hsplit. apply (deconstruct_frame dec _ _ _ normals wr).
+  - (* not the empty square *)
+    assert (Htn : tx_run normals = [] -> normals = []).
+    { intros E. destruct normals as [|n0 nl]; [reflexivity|exfalso].
+      destruct (compact_spec_ix_cons tx_ns (n0 :: nl)) as (x & l & Hx); [discriminate|].
+      unfold tx_run in E. congruence. }
+    pose proof (compact_spec_ix_ns tx_ns normals length_tx_ns) as Hns1. fold (tx_run normals) in Hns1.
+    pose proof (compact_spec_ix_ns pfb_ns wr length_pfb_ns) as Hns2.
+    change (compact_spec_ix pfb_ns 0 wr) with (pfb_run thr normals btxs) in Hns2.
+    destruct (tx_run normals) as [|x l].
+    + destruct (pfb_run thr normals btxs) as [|x l].
+      * exfalso. destruct Hcase as [Hc|Hc]; [exact (Hc (Htn eq_refl))|exact (Hc (Hwr_nil eq_refl))].
+      * cbn [app]. apply square_not_empty. apply Forall_cons_iff in Hns2 as [Hx _]. rewrite Hx. exact pfb_ns_not_tail.
+    + cbn [app]. apply square_not_empty. apply Forall_cons_iff in Hns1 as [Hx _]. rewrite Hx. exact tx_ns_not_tail.
+  - exact (compact_spec_ix_ns tx_ns normals length_tx_ns).
+  - exact (compact_spec_ix_ns pfb_ns wr length_pfb_ns).
+  - apply lay_rest_above, Hok.
+  - apply parse_tx_run; [reflexivity|reflexivity|exact Hnn|].
+    exact (normals_stream_small thr normals btxs Hest).
+  - apply parse_tx_run; [reflexivity|reflexivity|apply wrappers_nonempty|exact Hwlen].
+  - rewrite <- Hsplit.
+    apply (decon_wrappers dec thr normals btxs Ht Hok Hne Hdec Hest btxs 0%nat).
+    + intros i t H. exact H.
+    + apply Forall_forall. intros w Hw. pose proof (in_stream_le w wr Hw) as Hle.
+      unfold lenN in *. lia.
+  - intros E. rewrite (Hwr_nil E). reflexivity.
+Qed.
+
+(* ================================================================== *)
+(* C02 through raw transaction bytes (layout_construct)                *)
+(* ================================================================== *)
+
+Lemma split_ordered_normals : forall ns raws acc_n,
+  Forall (fun r => unmarshal_blob_tx r = UbtNot) ns ->
+  split_ordered false (ns ++ raws) acc_n [] = split_ordered false raws (acc_n ++ ns) [].
+Proof.
+  induction ns as [|r ns IH]; intros raws acc_n H; [rewrite app_nil_r; reflexivity|].
+  apply Forall_cons_iff in H as [Hr H]. cbn [app split_ordered]. unfold classify. rewrite Hr.
+  rewrite IH by exact H. rewrite <- app_assoc. reflexivity.
+Qed.
+
+Lemma split_ordered_blobs : forall braws btxs, Forall2 (fun r t => unmarshal_blob_tx r = UbtOk t) braws btxs ->
+  forall seen acc_n acc_b, split_ordered seen braws acc_n acc_b = Some (acc_n, acc_b ++ btxs).
+Proof.
+  induction 1 as [|r t braws btxs Hr _ IH]; intros seen acc_n acc_b; [rewrite app_nil_r; reflexivity|].
+  cbn [split_ordered]. unfold classify. rewrite Hr. rewrite IH, <- app_assoc. reflexivity.
+Qed.
+
+(* the canonical encoding of a blob transaction decodes to its parts *)
+Lemma blob_tx_bytes_decodes t : Forall blob_ok (btx_blobs t) -> btx_ok (btx_tx t) (btx_blobs t) ->
+  unmarshal_blob_tx (blob_tx_bytes t) = UbtOk t.
+Proof.
+  intros Hb Hw. pose proof Hw as (_ & Hne & _).
+  pose proof (marshal_blob_tx_bytes (btx_tx t) (btx_blobs t) Hne Hb) as Hm.
+  pose proof (blob_tx_round_trip _ _ _ Hw Hm) as Hr. destruct t as [tx blobs]. exact Hr.
+Qed.
+
+Lemma split_canonical normals btxs :
+  Forall (fun r => unmarshal_blob_tx r = UbtNot) normals ->
+  Forall (fun t => Forall blob_ok (btx_blobs t) /\ btx_ok (btx_tx t) (btx_blobs t)) btxs ->
+  split_ordered false (normals ++ map blob_tx_bytes btxs) [] [] = Some (normals, btxs).
+Proof.
+  intros Hn Hb. rewrite (split_ordered_normals normals _ [] Hn). cbn [app].
+  apply (split_ordered_blobs (map blob_tx_bytes btxs) btxs).
+  induction Hb as [|t btxs [H1 H2] _ IH]; cbn [map]; constructor; [|exact IH].
+  apply blob_tx_bytes_decodes; assumption.
+Qed.
+
+Theorem deconstruct_layout_construct dec thr max normals btxs sq :
+  1 <= thr -> (max <= 1024)%Z ->
+  Forall (fun r => r <> [] /\ unmarshal_blob_tx r = UbtNot) normals ->
+  Forall lay_btx_ok btxs ->
+  Forall (fun t => btx_ok (btx_tx t) (btx_blobs t)) btxs ->
+  Forall (fun t => dec (btx_tx t) = Ok (blob_sizes (btx_blobs t))) btxs ->
+  layout_construct (normals ++ map blob_tx_bytes btxs) max thr = Ok sq ->
+  deconstruct dec sq = Ok (normals ++ map blob_tx_bytes btxs).
+Proof.
+  intros Ht Hmax Hn Hok Hw Hdec H. unfold layout_construct in H.
+  destruct ((0 <? max)%Z && is_pow2 max) eqn:Ecfg; cbn [negb] in H; [|discriminate].
+  apply andb_true_iff in Ecfg as [Hpos _].
+  assert (Hs : split_ordered false (normals ++ map blob_tx_bytes btxs) [] [] = Some (normals, btxs)).
+  { apply split_canonical.
+    - eapply Forall_impl; [|exact Hn]. intros r [_ Hr]. exact Hr.
+    - rewrite Forall_forall in *. intros t Hin. split; [|apply Hw, Hin].
+      specialize (Hok t Hin). unfold lay_btx_ok in Hok. eapply Forall_impl; [|exact Hok]. intros b [Hb _]. exact Hb. }
+  destruct (split_ordered false _ [] []) as [[n' b']|] eqn:Es in H; [|discriminate].
+  assert (Heq : Some (n', b') = Some (normals, btxs)) by (etransitivity; [symmetry; exact Es|exact Hs]).
+  injection Heq as -> ->.
+  destruct (estimate thr normals btxs <=? Z.to_N max * Z.to_N max) eqn:Ee; [|discriminate].
+  injection H as <-. apply deconstruct_layout; try assumption.
+  - eapply Forall_impl; [|exact Hn]. intros r [Hr _]. exact Hr.
+  - eapply Forall_impl; [|exact Hw]. intros t (_ & Hne & _). exact Hne.
+  - assert (Z.to_N max <= 1024) by lia. nia.
+Qed.
+
+(* ================================================================== *)
+(* Non-vacuity: a concrete input satisfying all conditions             *)
+(* ================================================================== *)
+
+(* the mock PFB of the repository's test helpers: 329 bytes, then the blob sizes *)
+Definition ex_inner (sizes : list N) : bytes := repeat Byte.x0a 329 ++ concat (map be32 sizes).
+(* a version 1 blob (20 byte signer) whose data and signer need two shares *)
+Definition ex_blob_c : blob := mk_blob (ex_ns Byte.x02) (repeat Byte.x09 459) 1 (Some (repeat Byte.x33 20)).
+Definition ex_c02_btxs : list blob_tx :=
+  [mk_btx (ex_inner [2000; 600]) [ex_blob_b; ex_blob_a]; mk_btx (ex_inner [459]) [ex_blob_c]].
+
+Lemma ex_blob_c_ok : lay_blob_ok ex_blob_c.
+Proof.
+  split; [|vm_compute; reflexivity].
+  unfold blob_ok, ex_blob_c. cbn [b_ns b_data b_ver b_signer].
+  split; [reflexivity|]. split; [reflexivity|]. split; [reflexivity|]. split; [reflexivity|].
+  split; [reflexivity|]. split; [discriminate|]. split; [vm_compute; reflexivity|].
+  right. split; [reflexivity|]. exists (repeat Byte.x33 20). split; reflexivity.
+Qed.
+
+Lemma ex_c02_btxs_ok : Forall lay_btx_ok ex_c02_btxs.
+Proof.
+  assert (Ha : lay_blob_ok ex_blob_a).
+  { apply ex_blob_ok; [discriminate|vm_compute; reflexivity|left; reflexivity]. }
+  assert (Hb : lay_blob_ok ex_blob_b).
+  { apply ex_blob_ok; [discriminate|vm_compute; reflexivity|right; left; reflexivity]. }
+  pose proof ex_blob_c_ok as Hc.
+  constructor; [|constructor; [|constructor]]; unfold lay_btx_ok; cbn [btx_blobs].
+  - constructor; [exact Hb|]. constructor; [exact Ha|constructor].
+  - constructor; [exact Hc|constructor].
+Qed.
+
+Example ex_deconstruct_hyps :
+  1 <= 1 /\ Forall (fun t => t <> []) ex_normals /\ Forall lay_btx_ok ex_c02_btxs /\
+  Forall (fun t => btx_blobs t <> []) ex_c02_btxs /\
+  Forall (fun t => mock_pfb_decoder (btx_tx t) = Ok (blob_sizes (btx_blobs t))) ex_c02_btxs /\
+  estimate 1 ex_normals ex_c02_btxs < 2097152.
+Proof.
+  split; [lia|]. split; [repeat constructor; discriminate|]. split; [exact ex_c02_btxs_ok|].
+  split; [repeat constructor; discriminate|].
+  split; [repeat constructor; vm_compute; reflexivity|vm_compute; reflexivity].
+Qed.
+
+Example ex_deconstruct :
+  deconstruct mock_pfb_decoder (layout 1 ex_normals ex_c02_btxs) = Ok (ex_normals ++ map blob_tx_bytes ex_c02_btxs).
+Proof.
+  destruct ex_deconstruct_hyps as (H1 & H2 & H3 & H4 & H5 & H6). apply deconstruct_layout; assumption.
+Qed.
+
+(* the same input as raw bytes, accepted by layout_construct with maximum side 8 *)
+Lemma ex_blob_wire c data ver signer : data <> [] ->
+  ((ver = 0 /\ signer = None) \/ (ver = 1 /\ exists s, signer = Some s /\ length s = 20%nat)) ->
+  lenN data < 2 ^ 64 -> blob_wire_ok (mk_blob (ex_ns c) data ver signer).
+Proof.
+  intros Hd Hv Hl. unfold blob_wire_ok. cbn [b_ns b_data b_ver b_signer].
+  change (ex_ns c) with (Byte.x00 :: repeat Byte.x00 18 ++ repeat c 10).
+  split.
+  { exists Byte.x00, (repeat Byte.x00 18 ++ repeat c 10). split; [reflexivity|].
+    split; [reflexivity|left; split; reflexivity]. }
+  split; [|exact Hl]. unfold blob_acceptable.
+  split; [exact Hd|]. split; [discriminate|]. split; [reflexivity|exact Hv].
+Qed.
+
+Lemma ex_c02_wire_ok : Forall (fun t => btx_ok (btx_tx t) (btx_blobs t)) ex_c02_btxs.
+Proof.
+  assert (Ha : blob_wire_ok ex_blob_a).
+  { apply ex_blob_wire; [discriminate|left; split; reflexivity|vm_compute; reflexivity]. }
+  assert (Hb : blob_wire_ok ex_blob_b).
+  { apply ex_blob_wire; [discriminate|left; split; reflexivity|vm_compute; reflexivity]. }
+  assert (Hc : blob_wire_ok ex_blob_c).
+  { apply ex_blob_wire; [discriminate| |vm_compute; reflexivity].
+    right. split; [reflexivity|]. exists (repeat Byte.x33 20). split; reflexivity. }
+  constructor; [|constructor; [|constructor]]; unfold btx_ok; cbn [btx_tx btx_blobs].
+  - split; [vm_compute; reflexivity|]. split; [discriminate|]. split.
+    + constructor; [exact Hb|]. constructor; [exact Ha|constructor].
+    + constructor; [vm_compute; reflexivity|]. constructor; [vm_compute; reflexivity|constructor].
+  - split; [vm_compute; reflexivity|]. split; [discriminate|]. split.
+    + constructor; [exact Hc|constructor].
+    + constructor; [vm_compute; reflexivity|constructor].
+Qed.
+
+Example ex_deconstruct_construct :
+  let raws := ex_normals ++ map blob_tx_bytes ex_c02_btxs in
+  layout_construct raws 8 1 = Ok (layout 1 ex_normals ex_c02_btxs) /\
+  deconstruct mock_pfb_decoder (layout 1 ex_normals ex_c02_btxs) = Ok raws.
+Proof.
+  intros raws. assert (Hc : layout_construct raws 8 1 = Ok (layout 1 ex_normals ex_c02_btxs)) by (vm_compute; reflexivity).
+  split; [exact Hc|].
+  destruct ex_deconstruct_hyps as (H1 & H2 & H3 & H4 & H5 & H6).
+  apply (deconstruct_layout_construct mock_pfb_decoder 1 8 ex_normals ex_c02_btxs); try assumption.
+  - lia.
+  - repeat constructor; try discriminate; vm_compute; reflexivity.
+  - exact ex_c02_wire_ok.
 Qed.
